@@ -62,6 +62,9 @@ fn main() {
             }
         }
         "bin-pop" => {
+            if arg(&args, "--patched", "0") == "1" {
+                bincase::use_patched_db();
+            }
             let stdin = std::io::stdin();
             bincase::run_populations(&mut stdin.lock(), &mut out);
         }
@@ -175,6 +178,7 @@ fn main() {
             // (rmp_serde::to_vec, positional structs) resp. its JSON output - a regenerated database must be
             // readable and identical
             match arg(&args, "--reencode", "").as_str() {
+                "" if arg(&args, "--patched", "0") == "1" => db::export(bincase::patched_db(), &mut out),
                 "" => db::export(rbx_reflection_database::get(), &mut out),
                 how => {
                     let r = std::panic::catch_unwind(|| -> Result<rbx_reflection::ReflectionDatabase<'static>, String> {
